@@ -6,7 +6,7 @@ Definition vunion_trace (v w : list (Z * list Z)) : list (Z * list Z) := vunion 
 Definition vs_add_z (v : list (Z * si)) (c : si) := @vs_add Z v c.
 Definition vs_sub_z (v : list (Z * si)) (c : si) := @vs_sub Z v c.
 Extraction Language OCaml.
-Extraction "simodel.ml" SINot.si_not SIQuery.si_max SIQuery.si_min SIQuery.si_eval SICmp.si_ult SICmp.si_ule SICmp.si_ugt SICmp.si_uge SICmp.unsigned_bounds SICmp.si_slt SICmp.si_sle SICmp.si_sgt SICmp.si_sge SICmp.signed_bounds SIUnion.si_union SIUnion.si_join SIUnion.si_lub si_zext dsis_add dsis_sub dsis_neg vs_add_z vs_sub_z vunion_trace SI.normalize SI.mk SI.top SI.si_add SI.si_sub SI.si_neg SI.members SI.cardinality SI.wrapped_overflow_add
+Extraction "simodel.ml" SINot.si_not SIQuery.si_max SIQuery.si_min SIQuery.si_eval SICmp.si_ult SICmp.si_ule SICmp.si_ugt SICmp.si_uge SICmp.unsigned_bounds SICmp.si_slt SICmp.si_sle SICmp.si_sgt SICmp.si_sge SICmp.signed_bounds SIUnion.si_union SIUnion.si_join SIUnion.si_lub si_zext dsis_add dsis_sub dsis_neg dsis_not vs_add_z vs_sub_z vunion_trace SI.normalize SI.mk SI.top SI.si_add SI.si_sub SI.si_neg SI.members SI.cardinality SI.wrapped_overflow_add
   si_modular_add si_modular_sub si_modular_mul si_highbit si_max_int si_min_int si_signed_max_int si_signed_min_int
   si_to_negative si_upper si_lower si_wrapped_cardinality si_is_msb_zero si_is_msb_one si_get_msb
   si_unsigned_to_signed si_lex_lte si_lex_lt.
